@@ -3,7 +3,10 @@
 //! the Coq model (C05/Model.v) as the function H.  Oracle (plain Rust): identical bytes for the
 //! copy, the document re-reads to a dataset isomorphic to the input labelled c14n0..c14n(n-1), the
 //! identifier map is a bijection mapping the input onto the returned quads, and equality with an
-//! independent transcription of the W3C text (c05_common).
+//! independent transcription of the W3C text (c05_common).  Every third case is a dataset of near-identical
+//! quads or of parallel edges; stores include one that yields in insertion order, and the same quads are
+//! canonicalised in many insertion orders; the entry points with default limits, short-write and failing
+//! writers, a failing dataset and the Term view of the returned quads are driven too (c05_common).
 #[path = "c05_common/mod.rs"]
 mod c05_common;
 fn main() {
